@@ -460,7 +460,7 @@ NLW2_SOLReadResultCode SOLReader2<SOLHandler>::bsufread(FILE* f) {
       return NLW2_SOLRead_Bad_Suffix;
     if (fread(&SR.h, sizeof(SufHead), 1, f) != 1)
       return ReportEarlyEof();
-    SR.tablines = SR.h.tablen - 1;
+    SR.tablines = SR.h.tablen > 0 ? SR.h.tablen - 1 : 0;
     if (strncmp(SR.h.sufid, "\nSuffix\n", 8)
         || sufheadcheck(&SR))
       return NLW2_SOLRead_Bad_Suffix;
@@ -593,6 +593,9 @@ int SOLReader2<SOLHandler>::sufheadcheck(SufRead* sr) {
   n = (int)sr->h.n;
   if (sr->h.kind < 0 || sr->h.kind > 15 || n < 0 || sr->h.namelen < 2
    || sr->h.tablen < 0)
+    return 1;
+  // The buffer size computed below must fit in int.
+  if (sr->h.namelen > (INT_MAX - 6) / 4 || sr->h.tablen > (INT_MAX - 6) / 2)
     return 1;
   i = (int)sr->h.kind & 3;
   if (sr->h.tablen
